@@ -29,7 +29,7 @@ from operon_ai.coordination.watchdog import Watchdog
 ID = "C15"
 LEVEL = "exploration"
 ENGINE = "seq"
-RUNS = {"quick": 90_000, "thorough": 3_000_000}
+RUNS = {"quick": 80_000, "thorough": 3_000_000}
 RULE = ("seeded histories: 2-3 operations (priorities 0..3, all started first, sometimes at different virtual times), 2-3 "
         "resources (each pre-emptable or not), then depth <=8 (quick) / <=14 (thorough) steps, ~70 % acquisitions biased "
         "towards resources somebody else holds (re-entrant and repeated attempts included), the rest release / complete / "
